@@ -6,11 +6,25 @@
 # Every invocation rebuilds bin/vcheck (and bin/vcheck.race) from /verif and from
 # /repo's *current working tree* with the hook tag `verif`; Go's build cache
 # makes that a few seconds when nothing changed.
+#
+# Calibration only (never used by the registered commands): VERIF_REPO=<copy of the
+# repository> checks that copy instead of /repo, VERIF_OUT=<dir> puts bin/ work/
+# evidence/ replay/ there, so that several mutants can be examined in parallel
+# without touching /repo or /verif.
 set -u
-cd "$(dirname "$0")"
+SRC="$(cd "$(dirname "$0")" && pwd)"
+cd "$SRC"
 export GOFLAGS=-mod=mod GOPROXY=off GOSUMDB=off GOTOOLCHAIN=local
-export VERIF_ROOT="$PWD"
-mkdir -p bin work evidence replay
+OUT="${VERIF_OUT:-$SRC}"
+export VERIF_ROOT="$OUT"
+export VERIF_REPO="${VERIF_REPO:-/repo}"
+mkdir -p "$OUT/bin" "$OUT/work" "$OUT/evidence" "$OUT/replay"
+if [ "$OUT" != "$SRC" ]; then cp -f "$SRC/KNOWN_FINDINGS.txt" "$OUT/KNOWN_FINDINGS.txt"; fi
+MODFLAG=""
+if [ "$VERIF_REPO" != "/repo" ]; then
+  sed "s#=> /repo#=> $VERIF_REPO#" go.mod > "$OUT/alt.mod"; : > "$OUT/alt.sum"
+  MODFLAG="-modfile=$OUT/alt.mod"
+fi
 
 build() {
   # $1 = output, rest = extra flags; build to a private name, then rename atomically.
@@ -18,18 +32,19 @@ build() {
   # longer compiles but the library itself does, fall back to a build without hooks:
   # every oracle still runs, only the amplification (poison, scramble, counters) is lost.
   local out=$1; shift
-  local tmp="bin/.$(basename "$out").$$"
-  if go build -tags verif "$@" -o "$tmp" ./cmd/vcheck 2>bin/build.$$.log; then
-    rm -f bin/build.$$.log; mv -f "$tmp" "$out"; return 0
+  local tmp="$OUT/bin/.$(basename "$out").$$"
+  local log="$OUT/bin/build.$$.log"
+  if go build $MODFLAG -tags verif "$@" -o "$tmp" ./cmd/vcheck 2>"$log"; then
+    rm -f "$log"; mv -f "$tmp" "$out"; return 0
   fi
   echo "note: build with -tags verif failed, retrying without hooks:" >&2
-  head -20 bin/build.$$.log >&2
-  if go build "$@" -o "$tmp" ./cmd/vcheck 2>bin/build.$$.log; then
-    rm -f bin/build.$$.log; mv -f "$tmp" "$out"; return 0
+  head -20 "$log" >&2
+  if go build $MODFLAG "$@" -o "$tmp" ./cmd/vcheck 2>"$log"; then
+    rm -f "$log"; mv -f "$tmp" "$out"; return 0
   fi
-  echo "BUILD FAILED (the framework or /repo does not compile):" >&2
-  cat bin/build.$$.log >&2
-  rm -f "$tmp" bin/build.$$.log
+  echo "BUILD FAILED (the framework or the repository does not compile):" >&2
+  cat "$log" >&2
+  rm -f "$tmp" "$log"
   return 1
 }
 
@@ -41,21 +56,21 @@ needs_race() {
 cmd=${1:-}
 case "$cmd" in
   build)
-    build bin/vcheck || exit 2
-    build bin/vcheck.race -race || exit 2
+    build "$OUT/bin/vcheck" || exit 2
+    build "$OUT/bin/vcheck.race" -race || exit 2
     exit 0;;
   replay)
-    build bin/vcheck || exit 2
-    build bin/vcheck.race -race || exit 2
-    exec bin/vcheck replay "$2";;
+    build "$OUT/bin/vcheck" || exit 2
+    build "$OUT/bin/vcheck.race" -race || exit 2
+    exec "$OUT/bin/vcheck" replay "$2";;
   "")
     echo "usage: $0 <id> <quick|thorough> | replay <file> | build" >&2; exit 2;;
 esac
 
 id=$cmd
 tier=${2:-${VERIF_TIER:-quick}}
-build bin/vcheck || exit 2
+build "$OUT/bin/vcheck" || exit 2
 if needs_race "$id"; then
-  build bin/vcheck.race -race || exit 2
+  build "$OUT/bin/vcheck.race" -race || exit 2
 fi
-exec bin/vcheck run "$id" "$tier"
+exec "$OUT/bin/vcheck" run "$id" "$tier"
